@@ -47,6 +47,9 @@ func findMethod(f *ast.File, name string) *ast.FuncDecl {
 // its last statement returns (the query being built)
 var rootName, outName, recvName string
 
+// the case label the tags are being computed for (fields set by `root.F == "label"`)
+var curName string
+
 func enter(fd *ast.FuncDecl) {
 	rootName, outName, recvName = "", "", ""
 	if rs := fd.Recv.List; len(rs) > 0 && len(rs[0].Names) > 0 {
@@ -203,6 +206,20 @@ func needOf(stmts []ast.Stmt) int {
 			if mentionsLenArgs(x.Cond) {
 				return false
 			}
+		case *ast.CallExpr:
+			// a helper method of the builder that receives the syntax node: what it indexes
+			// unconditionally counts for the caller (one level of helpers, no recursion)
+			if sel, ok := x.Fun.(*ast.SelectorExpr); ok && exprName(sel.X) == recvName {
+				if fd := methods[sel.Sel.Name]; fd != nil && !inHelper {
+					for i, a := range x.Args {
+						if id, ok := a.(*ast.Ident); ok && id.Name == rootName {
+							if k := helperNeed(fd, i); k > need {
+								need = k
+							}
+						}
+					}
+				}
+			}
 		case *ast.IndexExpr:
 			if isRootField(x.X, "Args") {
 				bl, ok := x.Index.(*ast.BasicLit)
@@ -221,6 +238,132 @@ func needOf(stmts []ast.Stmt) int {
 		ast.Inspect(st, walk)
 	}
 	return need
+}
+
+// boolean locals of the clause being read, as functions of the case label:
+//   v := root.F == "lit"     v := true     if root.F == "lit" { v = true }
+var boolEnv = map[string]func(string) bool{}
+
+// nameTest: root.F == "lit" / root.F != "lit" -> predicate on the case label
+func nameTest(e ast.Expr) (func(string) bool, bool) {
+	if p, ok := e.(*ast.ParenExpr); ok {
+		return nameTest(p.X)
+	}
+	be, ok := e.(*ast.BinaryExpr)
+	if !ok || (be.Op != token.EQL && be.Op != token.NEQ) {
+		return nil, false
+	}
+	lit, okl := be.Y.(*ast.BasicLit)
+	sel := be.X
+	if !okl {
+		lit, okl = be.X.(*ast.BasicLit)
+		sel = be.Y
+	}
+	se, ok := sel.(*ast.SelectorExpr)
+	if !ok || !okl || lit.Kind != token.STRING || exprName(se.X) != rootName {
+		return nil, false
+	}
+	v, err := strconv.Unquote(lit.Value)
+	if err != nil {
+		return nil, false
+	}
+	if be.Op == token.EQL {
+		return func(n string) bool { return n == v }, true
+	}
+	return func(n string) bool { return n != v }, true
+}
+
+// boolValue of an expression for the current case label, when it can be told
+func boolValue(e ast.Expr) (bool, bool) {
+	if id, ok := e.(*ast.Ident); ok {
+		switch id.Name {
+		case "true":
+			return true, true
+		case "false":
+			return false, true
+		}
+		if f := boolEnv[id.Name]; f != nil && curName != "" {
+			return f(curName), true
+		}
+		return false, false
+	}
+	if f, ok := nameTest(e); ok && curName != "" {
+		return f(curName), true
+	}
+	return false, false
+}
+
+func constBool(b bool) func(string) bool { return func(string) bool { return b } }
+
+// readBoolEnv collects the boolean locals of a clause (top-level statements, in order)
+func readBoolEnv(stmts []ast.Stmt) {
+	boolEnv = map[string]func(string) bool{}
+	assign := func(as *ast.AssignStmt, guard func(string) bool) {
+		if len(as.Lhs) != 1 || len(as.Rhs) != 1 {
+			return
+		}
+		id, ok := as.Lhs[0].(*ast.Ident)
+		if !ok {
+			return
+		}
+		var val func(string) bool
+		if r, ok := as.Rhs[0].(*ast.Ident); ok && (r.Name == "true" || r.Name == "false") {
+			val = constBool(r.Name == "true")
+		} else if f, ok := nameTest(as.Rhs[0]); ok {
+			val = f
+		} else {
+			return
+		}
+		if guard == nil {
+			boolEnv[id.Name] = val
+			return
+		}
+		prev := boolEnv[id.Name]
+		if prev == nil {
+			return
+		}
+		boolEnv[id.Name] = func(n string) bool {
+			if guard(n) {
+				return val(n)
+			}
+			return prev(n)
+		}
+	}
+	for _, st := range stmts {
+		switch x := st.(type) {
+		case *ast.AssignStmt:
+			assign(x, nil)
+		case *ast.IfStmt:
+			if g, ok := nameTest(x.Cond); ok && x.Init == nil && x.Else == nil && len(x.Body.List) == 1 {
+				if as, ok := x.Body.List[0].(*ast.AssignStmt); ok {
+					assign(as, g)
+				}
+			}
+		}
+	}
+}
+
+var methods = map[string]*ast.FuncDecl{}
+var inHelper bool
+
+// helperNeed: needOf the body of helper fd, whose argIdx-th parameter is the syntax node
+func helperNeed(fd *ast.FuncDecl, argIdx int) int {
+	var names []string
+	for _, f := range fd.Type.Params.List {
+		for _, n := range f.Names {
+			names = append(names, n.Name)
+		}
+	}
+	if argIdx >= len(names) {
+		return 0
+	}
+	saveRoot := rootName
+	rootName = names[argIdx]
+	inHelper = true
+	k := needOf(fd.Body.List)
+	inHelper = false
+	rootName = saveRoot
+	return k
 }
 
 func exprName(e ast.Expr) string {
@@ -259,7 +402,7 @@ func tagOf(cl *ast.CompositeLit, fnKey string, resolve func(string) string) stri
 			}
 			continue
 		}
-		if id, ok := kv.Value.(*ast.Ident); ok && id.Name == "true" {
+		if v, known := boolValue(kv.Value); known && v {
 			flags = append(flags, k)
 		}
 		if k == "Input" && exprName(kv.Value) == recvName+".firstInput" {
@@ -371,6 +514,11 @@ func main() {
 	if err != nil {
 		die("%v", err)
 	}
+	for _, d := range f.Decls {
+		if fd, ok := d.(*ast.FuncDecl); ok && fd.Recv != nil && fd.Body != nil {
+			methods[fd.Name.Name] = fd
+		}
+	}
 	var b strings.Builder
 	b.WriteString("(* GENERATED by go/cmd/gendispatch from /repo/build.go on every run - do not edit. *)\n")
 	b.WriteString("From Coq Require Import String List.\nFrom XP Require Import Dispatch.\nImport ListNotations.\nOpen Scope string_scope.\n\n")
@@ -390,11 +538,13 @@ func main() {
 				continue
 			}
 			names := caseNames(cc)
+			readBoolEnv(cc.Body)
 			gs := guardsOf(cc.Body)
 			need := needOf(cc.Body)
 			common := outputsOf(cc.Body, "FuncName")
 			inner := nestedSwitch(cc.Body, "FuncName")
 			for _, nm := range names {
+				curName = nm
 				var tags []string
 				for _, cl := range common {
 					tags = append(tags, tagOf(cl, "Func", nil))
@@ -451,7 +601,9 @@ func main() {
 				def = hasErrorReturn(cc.Body)
 				continue
 			}
+			readBoolEnv(cc.Body)
 			for _, nm := range caseNames(cc) {
+				curName = nm
 				var tags []string
 				for _, cl := range outputsOf(cc.Body, "AxisType") {
 					tags = append(tags, tagOf(cl, "Func", nil))
@@ -482,7 +634,9 @@ func main() {
 				continue
 			}
 			inner := nestedSwitch(cc.Body, "Op")
+			readBoolEnv(cc.Body)
 			for _, nm := range caseNames(cc) {
+				curName = nm
 				resolve := func(v string) string {
 					if inner == nil {
 						return ""
